@@ -84,6 +84,16 @@ func c08Prelude() []zn.Stmt {
 			Catches: []zn.Catch{{Class: "异常", Body: []zn.Stmt{ret(bin("+", v("参"), num(500)))}}}},
 		zn.Decl{Pairs: []zn.DeclPair{{Names: []string{"Q1"}, Val: zn.New{Class: "点"}}}},
 		zn.Decl{Pairs: []zn.DeclPair{{Names: []string{"Q2"}, Val: zn.New{Class: "点"}}}},
+		// 输出 of the value 空 ends the method like any other 输出
+		zn.Func{Name: "早返", Params: []string{"X"}, Body: []zn.Stmt{
+			zn.If{Cond: bin("<=", v("X"), num(1)), Then: []zn.Stmt{ret(v("空"))}},
+			show(str("过"), v("X")), ret(v("X"))}},
+		// a type with a constructor, written before a type whose default property value creates
+		// an object of it with arguments: the constructor is attached by then
+		zn.Class{Name: "角", Props: []zn.Prop{{Name: "横", Val: num(0)}, {Name: "纵", Val: num(0)}}},
+		zn.Func{Name: "角", Ctor: true, Params: []string{"甲", "乙"}, Body: []zn.Stmt{
+			zn.ExprStmt{E: zn.Assign{Target: this("横"), Val: v("甲")}}, zn.ExprStmt{E: zn.Assign{Target: this("纵"), Val: v("乙")}}}},
+		zn.Class{Name: "框", Props: []zn.Prop{{Name: "角", Val: zn.New{Class: "角", Args: []zn.Expr{num(3), num(4)}}}}},
 	}
 }
 
@@ -158,6 +168,10 @@ func c08Forms() []c08Form {
 		{"Q1升", 0, func(a []zn.Expr) zn.Expr { return mc1(zn.Var{Name: "Q1"}, "升") }},
 		{"Q2之X", 0, func(a []zn.Expr) zn.Expr { return zn.Member{Root: zn.Var{Name: "Q2"}, Name: "X"} }},
 		{"O之数自减", 1, func(a []zn.Expr) zn.Expr { return mc1(zn.Member{Root: O, Name: "数"}, "自减", a[0]) }},
+		{"早返", 1, func(a []zn.Expr) zn.Expr { return call("早返", a[0]) }},
+		{"新建框", 0, func(a []zn.Expr) zn.Expr {
+			return zn.Member{Root: zn.Member{Root: zn.New{Class: "框"}, Name: "角"}, Name: "纵"}
+		}},
 		{"新建点+2", 2, func(a []zn.Expr) zn.Expr { return zn.Member{Root: zn.New{Class: "点", Args: []zn.Expr{a[0], a[1]}}, Name: "X"} }},
 	}
 }
@@ -265,7 +279,7 @@ func c08Families(tier string) []c08Family {
 	var key []c08Form
 	for _, f := range all {
 		switch f.name {
-		case "一", "二", "二-1", "O加", "O推", "O访P", "O试P", "O无", "O之数", "P之表", "O加加", "新建型", "Q1升", "新建点", "斐6", "应用一", "应用倍", "试错", "三链", "斐得6":
+		case "一", "二", "二-1", "O加", "O推", "O访P", "O试P", "O无", "O之数", "P之表", "O加加", "新建型", "Q1升", "新建点", "斐6", "应用一", "应用倍", "试错", "三链", "斐得6", "早返", "新建框":
 			key = append(key, f)
 		}
 	}
